@@ -13,11 +13,11 @@ import (
 
 func init() {
 	register("C12",
-		"a number token's own source text is what the evaluator converts, with SetString and the failure turned into an error; every path through the decimal number scanner ends with the identifier-follows check, which raises its diagnostic when an identifier start follows; an exponent without digits, a separator not between two digits, a doubled and a trailing separator each raise a diagnostic; on the separator path the pending text range restarts after the separator, so separators never reach the token text; number tokens are made current only by the decimal number scanner.",
+		"a number token's own source text is what the evaluator converts, with SetString and the failure turned into an error; every path through the decimal number scanner ends with the identifier-follows check, which raises its diagnostic when an identifier start follows; an exponent without digits, a separator not between two digits, a doubled and a trailing separator each raise a diagnostic; on the separator path the pending text range restarts after the separator, so separators never reach the token text; number tokens are made current only by the decimal number scanner. The separator bit set by the fragment scanner is the bit the number scanner tests and nothing overwrites the token flags in between; the digit class is exactly '0'..'9' (truth table over ASCII and sampled Unicode digits).",
 		"that the decimal library's SetString reads every such text as the number written (trusted), leading-zero handling, and the assembly of the three fragments as a value statement.",
 		runC12)
 	register("C15",
-		"every node allocated by the parser gets both ends of its range on every path (finishNode, the placeholder helper, or SetPos+SetEnd); the start handed to finishNode is taken before the node's first token is consumed or from its first child; the error returned for a rejected input is the formatted FIRST diagnostic and its line/column derive from that diagnostic's Start; every way the parser rejects input after the top-level expression goes through a diagnostic (not a panic); an index guard `j < len(text)` protects the index it tests; the line-start table opens a new line exactly on LF, CR (CRLF once), U+2028, U+2029, U+0085.",
+		"every node allocated by the parser gets both ends of its range on every path (finishNode, the placeholder helper, or SetPos+SetEnd); the start handed to finishNode is taken before the node's first token is consumed or from its first child; the error returned for a rejected input is the formatted FIRST diagnostic and its line/column derive from that diagnostic's Start; every way the parser rejects input after the top-level expression goes through a diagnostic (not a panic); an index guard `j < len(text)` protects the index it tests; the line-start table opens a new line exactly on LF, CR (CRLF once), U+2028, U+2029, U+0085. The column is offset - lineStarts[line] for the reported line (a byte offset).",
 		"nesting and re-parse as value statements, correctness of the binary search beyond termination, column arithmetic.",
 		runC15)
 }
